@@ -161,6 +161,9 @@ class ContentElement:
 
       # attaching
 
+      if self.parent() is not None and self.parent().get_doc() is not doc:
+        raise RuntimeError("Element must be removed from parent first")
+
       for e in self.dfs_iterator():
         if e.is_attached():
           raise RuntimeError("Element must be detached first")
